@@ -2,7 +2,7 @@
     stay Coq datatypes; no Extract Constant). Run coqc from the ocaml/ directory. *)
 Require Extraction.
 Require Import ExtrOcamlBasic.
-From IAVL Require Import Bytes Varint Sha256 Tree VMap MTree KV Iter ExportImport Codec Diff Store Ics23.
+From IAVL Require Import Bytes Varint Sha256 Tree VMap MTree KV Iter ExportImport Codec Diff Store Ics23 VersionFacts.
 
 Definition m_step := MTree.step sha256.
 Definition m_init := MTree.init_state.
@@ -21,4 +21,4 @@ Extraction "model.ml" m_step m_init bcmp sha256 uvarint_enc uvarint_dec varint_e
   Codec.node_key_bytes Codec.classify_root Codec.fast_storage_label Codec.db_node_key Codec.db_fast_key Codec.db_meta_key
   Codec.root_ref_value
   Diff.extract Diff.net Store.expected_store Store.expected_fast commit_ops_sha
-  get_proof_sha Ics23.marshal_commitment_proof.
+  get_proof_sha Ics23.marshal_commitment_proof VersionFacts.in_contractb.
